@@ -25,6 +25,7 @@ TARGETS = ['selfies/grammar_rules.py::next_atom_state',
            'selfies/mol_graph.py::Atom.bonding_capacity',
            'selfies/grammar_rules.py::process_atom_symbol',
            'selfies/grammar_rules.py::_process_atom_selfies_no_cache']
+ASSUMPTIONS = ["atom-symbol contracts (process_atom_symbol, _process_atom_selfies_no_cache, smiles_to_atom, tokenize_smiles) assume ASCII input of at most 4000 characters: Unicode digits matched by \\\\d and CPython's 4300-digit int() limit are recorded known findings", "regex match groups are modelled as SOME decomposition of the string into the pattern's top-level pieces (sound over-approximation of the greedy choice); functools.partial(Atom, **kw) is modelled as a heap object whose call constructs a fresh Atom", 'constraint-table values of type bool (True/False pass isinstance(value, int)) are not modelled; keys of the table passed to set_semantic_constraints are assumed to be str', 'lru_cache is modelled by a per-function memo flag (stale after a write of _current_constraints, clean after cache_clear()); the dict iteration order is abstract (ghost key vector enumerating exactly the present keys)', "graph-level contracts (mol_graph mutators, _form_rings_bilocally) cover integer bond orders and attribution off (the decoder side); the link between _bond_counts and the sum over incident bonds is carried by the mutators' whole-view postconditions, the finite-sum update law itself is a stated mathematical fact"]
 EXPLANATION = (
     "Mixed. PROVED (deductive, all inputs and all tables - the capacity is a symbolic integer): the clip clauses of "
     "the state functions (bond order <= requested, <= state, <= capacity of the new atom; branch split "
